@@ -28,6 +28,7 @@ class Sched:
         self.locks = {}          # mutex key -> 0 free, -1 writer, k readers
         self.holds = [dict() for _ in closures]    # per thread: mutex key -> count
         self.unguarded = 0
+        self.pointee_yielded = set()
 
     # ---- driver (called from the main interpreter thread)
     def run(self):
@@ -148,6 +149,28 @@ class Sched:
         if sum(1 for d in self.done if not d) > 1:
             self.yield_point(('access', None))
 
+    def access_pointee(self, obj, write):
+        """a store into a buffer that is reachable from the tracked shared state (a slice or pointer stored there):
+        it must be made under the write lock; counted, and a scheduling point once per thread and buffer"""
+        i = self.cur
+        if i < 0 or not write:
+            return
+        if any(v == 'w' for v in self.holds[i].values()):
+            return
+        self.unguarded += 1
+        self.ex.events.append(('unguarded', 'write into %s (reachable from the shared state) without the write lock' % obj.label))
+        key = (i, obj.id)
+        if key not in self.pointee_yielded and sum(1 for d in self.done if not d) > 1:
+            self.pointee_yielded.add(key)
+            self.yield_point(('access', None))
+
+def track_pointee(ex, v, owner):
+    from .core import Ptr, Slice
+    if isinstance(v, Slice):
+        v = v.ptr
+    if isinstance(v, Ptr) and v.obj is not None and v.obj is not owner and not getattr(v.obj, 'ro', False):
+        ex.pstate.setdefault('tracked_objs', set()).add(v.obj.id)
+
 def verif_threads(ex, a, ins):
     clos = [c for c in a if c is not None]
     if len(clos) == 1 and isinstance(clos[0], Slice):
@@ -187,6 +210,10 @@ def verif_track(ex, a, ins):
             continue
         if isinstance(v, MapObj):
             ex.pstate.setdefault('tracked_maps', set()).add(id(v))
+    # buffers reachable from the tracked range (slices and pointers stored there, whatever the cell size)
+    for start, (n, v) in list(p.obj.cells.items()):
+        if start < p.off + hi and start + n > p.off + lo:
+            track_pointee(ex, v, p.obj)
     return None
 
 def install(ex):
